@@ -149,6 +149,8 @@ func (v *HitScopeVariables) Add(s context.Scope, name string, val value.Value) e
 	}
 
 	v.ctx.Object.Header.Add(match[1], val.String())
+
+	v.ctx.Object.Assign(match[1])
 	return nil
 }
 
